@@ -246,6 +246,8 @@ PROPS["C19"]["tasks"] = PROPS["C19"]["tasks"] + ["OrderMistakeShock.hooked_befor
 # fills are observed through the logger the market was built with (C05 depends on the index market's constructor forwarding it)
 PROPS["C06"]["tasks"] = PROPS["C06"]["tasks"] + [t for t in ("Market._add_order", "Market._cancel_order", "Market._execute_orders") if t not in PROPS["C06"]["tasks"]]
 PROPS["C05"]["tasks"] = PROPS["C05"]["tasks"] + ["IndexMarket.__init__"]
+# round 8: "a function of the configuration and the seed and of nothing else" - also not of whether a logger is attached: the run-loop blocks are proved with and without one (C07)
+PROPS["C07"]["tasks"] = PROPS["C07"]["tasks"] + [t for t in SKELETON + RUNNER_ELEMS if t not in PROPS["C07"]["tasks"]]
 from .census import CALLERS as _CALLERS
 for _g, (_ps, _r, _t) in _CALLERS.items():
     for _p in _ps:
